@@ -404,7 +404,11 @@ class Linker:
             for library in libraries:
                 self.logger.debug("scanning library for symbols %s", library)
                 for obj in library:
-                    has_sym = any(map(obj.has_symbol, undefined_symbols))
+                    # Only use objects which define a missing symbol:
+                    has_sym = any(
+                        obj.has_symbol(name) and obj.get_symbol(name).defined
+                        for name in undefined_symbols
+                    )
                     if has_sym:
                         self.logger.debug(
                             "Using object file %s from library", obj
